@@ -401,3 +401,308 @@ Proof.
     specialize (VP Z RZ EZ). assert (Hi : 0 < / s) by (apply Rinv_0_lt_compat; assumption). unfold Rdiv. nra.
 Qed.
 
+
+(* ================= Huber on a vector field (repaired proximal_huber, fix bec7266) ================= *)
+(* ---------------- Huber of the Euclidean norm at one point of a vector field ---------------- *)
+Definition hscale (gamma s : R) (xh : Rvec) : Rvec :=
+  map (fun a => a * @huber_factor R _ gamma s (sqrt (dot xh xh))) xh.
+
+Lemma dot_map_scale_l F : forall x y : Rvec, dot (map (fun a => a * F) x) y = F * dot x y.
+Proof.
+  induction x as [|a x IH]; intros [|b y]; cbn [map]; rewrite ?dot_nil_l, ?dot_cons; try (unfold dot; cbn; numR; lra).
+  rewrite IH. ring.
+Qed.
+Lemma vsub_map_scale d F : forall x : Rvec, length x = d -> vsub x (map (fun a => a * F) x) = map (fun a => a * (1 - F)) x.
+Proof.
+  induction d as [|d IHd]; intros [|a x] Hx; cbn [length] in *; try lia; [reflexivity|].
+  unfv. cbn [map vmap2]. f_equal; [numR; ring | apply IHd; lia].
+Qed.
+
+Lemma hscale_vi d gamma s (xh zh : Rvec) : 0 <= gamma -> 0 < s -> length xh = d -> length zh = d ->
+  hub gamma (sqrt (dot (hscale gamma s xh) (hscale gamma s xh)))
+  + / s * dot (vsub zh (hscale gamma s xh)) (vsub xh (hscale gamma s xh)) <= hub gamma (sqrt (dot zh zh)).
+Proof.
+  intros Hg Hs Hx Hz. unfold hscale. set (N := sqrt (dot xh xh)). set (Zn := sqrt (dot zh zh)).
+  assert (HN0 : 0 <= N) by apply sqrt_pos. assert (HZ0 : 0 <= Zn) by apply sqrt_pos.
+  assert (HNN : N * N = dot xh xh) by (apply sqrt_sqrt, dot_self_nonneg).
+  pose proof (dot_cs d zh xh Hz Hx) as CS. fold N Zn in CS.
+  set (F := @huber_factor R _ gamma s N).
+  set (B := dot zh xh) in *.
+  (* everything in terms of N, B, F *)
+  assert (Epp : dot (map (fun a => a * F) xh) (map (fun a => a * F) xh) = (F * N) * (F * N)).
+  { rewrite dot_map_scale_l, dot_comm, dot_map_scale_l, <- HNN. ring. }
+  assert (Ed : dot (vsub zh (map (fun a => a * F) xh)) (vsub xh (map (fun a => a * F) xh)) = (1 - F) * (B - F * (N * N))).
+  { rewrite (vsub_map_scale d) by assumption. rewrite dot_comm, dot_map_scale_l, dot_comm.
+    rewrite (dot_vsub_l d) by (auto; rewrite map_length; assumption). rewrite dot_map_scale_l, <- HNN. fold B. ring. }
+  rewrite Epp, Ed.
+  unfold F, huber_factor. numR. destruct (Rleb_spec N (gamma + s)) as [H|H].
+  - (* small: factor gamma/(gamma+s) *)
+    set (u := N / (gamma + s)).
+    assert (Hu : -1 <= u <= 1).
+    { unfold u. split.
+      - apply Rle_trans with 0; [lra|]. apply Rmult_le_pos; [lra|]. apply Rlt_le, Rinv_0_lt_compat; lra.
+      - apply (Rmult_le_reg_r (gamma + s)); [lra|]. unfold Rdiv. rewrite Rmult_assoc, Rinv_l by lra. lra. }
+    assert (Hu0 : 0 <= u) by (unfold u; apply Rmult_le_pos; [lra|apply Rlt_le, Rinv_0_lt_compat; lra]).
+    assert (EFN : gamma / (gamma + s) * N = gamma * u) by (unfold u; field; lra).
+    rewrite EFN. replace (gamma * u * (gamma * u)) with ((gamma * u) * (gamma * u)) by ring.
+    rewrite sqrt_square by nra. rewrite hub_eq_small by assumption.
+    pose proof (hub_lower gamma Zn u Hg Hu) as L.
+    assert (EB : / s * ((1 - gamma / (gamma + s)) * (B - gamma / (gamma + s) * (N * N))) = B / (gamma + s) - gamma * u * u).
+    { unfold u. field. lra. }
+    rewrite EB.
+    assert (B / (gamma + s) <= u * Zn).
+    { unfold u, Rdiv. assert (0 < / (gamma + s)) by (apply Rinv_0_lt_compat; lra). nra. }
+    lra.
+  - apply Rnot_le_lt in H. assert (HNp : 0 < N) by lra.
+    assert (EFN : (1 - s / N) * N = N - s) by (field; lra).
+    rewrite EFN. replace ((N - s) * (N - s)) with ((N - s) * (N - s)) by ring. rewrite sqrt_square by lra.
+    rewrite (hub_eq_large gamma (N - s) 1 Hg) by (try (rewrite Rabs_right; lra); left; split; lra).
+    pose proof (hub_lower gamma Zn 1 Hg ltac:(lra)) as L.
+    assert (EB : / s * ((1 - (1 - s / N)) * (B - (1 - s / N) * (N * N))) = B / N - (N - s)) by (field; lra).
+    rewrite EB.
+    assert (B / N <= Zn) by (apply (Rmult_le_reg_r N); [assumption|]; unfold Rdiv; rewrite Rmult_assoc, Rinv_l by lra; lra).
+    lra.
+Qed.
+
+(* ---------------- the field ---------------- *)
+Definition hrows (F : Rvec) (X : list Rvec) : list Rvec := map (fun c => vmul c F) X.
+Definition hfac (m : nat) (gamma s : R) (X : list Rvec) : Rvec := map (@huber_factor R _ gamma s) (map sqrt (cn m X)).
+Definition hval (m : nat) (gamma : R) (wb : Rvec) (M : list Rvec) : R := sumf (vmul wb (map (hub gamma) (map sqrt (cn m M)))).
+
+Lemma hrows_rows d m F X : rows_ok d m X -> length F = m -> rows_ok d m (hrows F X).
+Proof.
+  intros [L R] Hd. split; [unfold hrows; rewrite map_length; assumption|].
+  unfold hrows. clear L. induction R; cbn [map]; constructor; auto. apply vmul_len; assumption.
+Qed.
+Lemma hrows_peel d m f0 F X : rows_ok d (S m) X ->
+  heads (hrows (f0 :: F) X) = map (fun a => a * f0) (heads X) /\ tails (hrows (f0 :: F) X) = hrows F (tails X).
+Proof.
+  intros [L R]. clear L. induction R as [|r X Hr HX IH]; [split; reflexivity|].
+  destruct IH as [E1 E2]. destruct r as [|a r]; [cbn in Hr; lia|].
+  unfold hrows, heads, tails in *. cbn [map]. rewrite E1, E2. unfv. cbn [vmap2 hd tl]. split; reflexivity.
+Qed.
+
+Theorem ghuber_vi gamma s d : 0 <= gamma -> 0 < s -> forall m (wb : Rvec) (X Z : list Rvec), allpos wb -> length wb = m ->
+  rows_ok d m X -> rows_ok d m Z ->
+  let P := hrows (hfac m gamma s X) X in
+  hval m gamma wb P + / s * mdot wb (msub Z P) (msub X P) <= hval m gamma wb Z.
+Proof.
+  intros Hg Hs. induction m as [|m IHm]; intros wb X Z Pw Lw RX RZ P.
+  - destruct wb; [|discriminate]. unfold hval. cbn [vmul vmap2 sumf]. rewrite mdot_nil_w. numR. lra.
+  - destruct wb as [|w0 wb]; [discriminate|]. inversion Pw as [|? ? Hw0 Pw']; subst. cbn [length] in Lw.
+    assert (Ld : length (hfac (S m) gamma s X) = S m) by (unfold hfac; rewrite !map_length; apply (cn_len d); assumption).
+    assert (RP : rows_ok d (S m) P) by (apply hrows_rows; assumption).
+    assert (Ed : hfac (S m) gamma s X = @huber_factor R _ gamma s (sqrt (dot (heads X) (heads X))) :: hfac m gamma s (tails X)).
+    { unfold hfac. rewrite (cn_peel d) by assumption. reflexivity. }
+    unfold P in *. rewrite Ed in *.
+    destruct (hrows_peel d m (@huber_factor R _ gamma s (sqrt (dot (heads X) (heads X)))) (hfac m gamma s (tails X)) X RX) as [HP TP].
+    set (P' := hrows (@huber_factor R _ gamma s (sqrt (dot (heads X) (heads X))) :: hfac m gamma s (tails X)) X) in *.
+    assert (HPb : heads P' = hscale gamma s (heads X)) by (rewrite HP; reflexivity).
+    pose proof (rows_tails d m X RX) as RtX. pose proof (rows_tails d m Z RZ) as RtZ.
+    specialize (IHm wb (tails X) (tails Z) Pw' ltac:(lia) RtX RtZ). cbv zeta in IHm. rewrite <- TP in IHm.
+    unfold hval in *. rewrite (cn_peel d m P'), (cn_peel d m Z) by assumption.
+    cbn [map]. unfv. cbn [vmap2 sumf].
+    rewrite (mdot_peel d m) by (apply msub_rows; assumption).
+    destruct (msub_heads d m Z P' RZ RP) as [E1 E2]. destruct (msub_heads d m X P' RX RP) as [E3 E4].
+    rewrite E1, E2, E3, E4, HPb.
+    pose proof (hscale_vi d gamma s (heads X) (heads Z) Hg Hs (heads_len d _ X RX) (heads_len d _ Z RZ)) as B.
+    numR.
+    assert (w0 * (hub gamma (sqrt (dot (hscale gamma s (heads X)) (hscale gamma s (heads X)))) +
+                  / s * dot (vsub (heads Z) (hscale gamma s (heads X))) (vsub (heads X) (hscale gamma s (heads X))))
+            <= w0 * hub gamma (sqrt (dot (heads Z) (heads Z)))) by (apply Rmult_le_compat_l; lra).
+    lra.
+Qed.
+
+Theorem ghuber_leaf_prox m d gamma (wb x : Rvec) s : 0 <= gamma -> 0 < s -> (1 <= d)%nat -> allpos wb -> length wb = m ->
+  length x = (d * m)%nat ->
+  let w := concat (repeat wb d) in
+  is_proxs (d * m) (@leaf_val R _ _ (FHuberG m d gamma) w) (metric w (repeat s (d * m))) x
+           (@prox_huber_g R _ _ m d gamma s x).
+Proof.
+  intros Hg Hs Hd Pw Lw Hx w.
+  assert (Lww : length w = (d * m)%nat).
+  { unfold w. clear -Lw. induction d; cbn [repeat concat]; [reflexivity|]. rewrite app_length, IHd. lia. }
+  assert (Hfw : firstn m w = wb).
+  { unfold w. destruct d; [lia|]. cbn [repeat concat]. rewrite firstn_app, Lw, Nat.sub_diag, firstn_all2 by lia.
+    cbn [firstn]. apply app_nil_r. }
+  assert (Hval : forall M, rows_ok d m M -> @leaf_val R _ _ (FHuberG m d gamma) w (concat M) = Some (hval m gamma wb M)).
+  { intros M RM. cbn [leaf_val]. unfold pw_norm, pw_normsq. rewrite (chunks_concat m d M RM), Hfw. reflexivity. }
+  destruct (chunks_rows m d x Hx) as [RX CX]. set (X := chunks m d x) in *.
+  assert (Ldl : length (hfac m gamma s X) = m) by (unfold hfac; rewrite !map_length; apply (cn_len d); assumption).
+  assert (RP : rows_ok d m (hrows (hfac m gamma s X) X)) by (apply hrows_rows; assumption).
+  assert (Ep : @prox_huber_g R _ _ m d gamma s x = concat (hrows (hfac m gamma s X) X)).
+  { unfold prox_huber_g, pw_norm, pw_normsq. fold X. fold (cn m X). numS. reflexivity. }
+  rewrite Ep. split; [apply (concat_len d m); assumption|].
+  exists (hval m gamma wb (hrows (hfac m gamma s X) X)). split; [apply Hval; assumption|].
+  intros z Hz. destruct (chunks_rows m d z Hz) as [RZ CZ]. set (Z := chunks m d z) in *.
+  rewrite <- CZ, Hval by assumption. cbn [ele].
+  rewrite (metric_scalar_dot (d * m)) by (auto using concat_len, repeat_length with vlen; try lra;
+                                        rewrite ?(vsub_concat d m) by assumption; apply (concat_len d m), msub_rows; assumption).
+  rewrite <- CX at 1. rewrite !(vsub_concat d m) by assumption. unfold w.
+  rewrite (wdot_concat d m wb Lw) by (apply msub_rows; assumption).
+  pose proof (ghuber_vi gamma s d Hg Hs m wb X Z Pw Lw RX RZ) as V. cbv zeta in V. unfold Rdiv. lra.
+Qed.
+
+
+(* ================= IndicatorSumConstraint (repaired, fix c7fdd8d) ================= *)
+(* ---------------- IndicatorSumConstraint: x + (c - sum x)/n on a uniformly weighted space ---------------- *)
+Lemma sumf_map_add off : forall x : Rvec, sumf (map (fun a => a + off) x) = sumf x + INR (length x) * off.
+Proof.
+  induction x as [|a x IH]; cbn [map sumf length]; numR; [cbn; lra|]. rewrite IH, S_INR. ring.
+Qed.
+Lemma dot_shift n off : forall v x : Rvec, length v = n -> length x = n ->
+  dot v (vsub x (map (fun a => a + off) x)) = - off * sumf v.
+Proof.
+  induction n as [|n IHn]; intros [|b v] [|a x] Hv Hx; cbn [length] in *; try lia.
+  - cbv. lra.
+  - unfv. cbn [map vmap2 sumf]. rewrite dot_cons. unfold vsub in IHn. rewrite IHn by lia. numR. ring.
+Qed.
+Lemma sumf_vsub n : forall z p : Rvec, length z = n -> length p = n -> sumf (vsub z p) = sumf z - sumf p.
+Proof.
+  induction n as [|n IHn]; intros [|b z] [|a p] Hz Hp; cbn [length] in *; try lia.
+  - cbv. lra.
+  - unfv. cbn [vmap2 sumf]. unfold vsub in IHn. rewrite IHn by lia. numR. ring.
+Qed.
+
+Theorem sumc_leaf_prox n c k (w x : Rvec) : 0 < k -> length x = n -> (1 <= n)%nat ->
+  is_proxs n (@leaf_val R _ _ (FSumC c) w) (repeat k n) x (@prox_sumc R _ c x).
+Proof.
+  intros Hk Hx Hn. unfold prox_sumc. numR. rewrite Hx, <- INR_IZR_INZ.
+  assert (HN : 0 < INR n) by (apply lt_0_INR; lia).
+  set (off := 1 / INR n * (c - sumf x)). set (p := map (fun a => a + off) x).
+  assert (Lp : length p = n) by (unfold p; rewrite map_length; assumption).
+  assert (Sp : sumf p = c) by (unfold p; rewrite sumf_map_add, Hx; unfold off; field; lra).
+  split; [assumption|]. exists 0. split.
+  - cbn [leaf_val]. numR. rewrite Sp. unfold ind. destruct (Reqb_spec c c); [reflexivity|congruence].
+  - intros z Hz. cbn [leaf_val]. numR. unfold ind. destruct (Reqb_spec (sumf z) c) as [Ez|]; cbn [ele]; [|exact I].
+    numR. rewrite (wdot_repeat n) by auto with vlen. unfold p at 2. rewrite (dot_shift n) by auto with vlen.
+    rewrite (sumf_vsub n) by assumption. rewrite Ez, Sp. lra.
+Qed.
+
+
+(* ================= proximal_convex_conj_l1_l2(space, lam, g): projection of every point of x - sigma g onto the lam-ball ================= *)
+(* ---------------- one point: projection onto the lam-ball of R^d ---------------- *)
+Definition bprojl (lam : R) (xh : Rvec) : Rvec := map (fun a => a / (Rmax (sqrt (dot xh xh)) lam / lam)) xh.
+
+Lemma bprojl_vi d lam (xh zh : Rvec) : 0 < lam -> length xh = d -> length zh = d ->
+  dot (bprojl lam xh) (bprojl lam xh) <= lam * lam /\
+  (dot zh zh <= lam * lam -> dot (vsub zh (bprojl lam xh)) (vsub xh (bprojl lam xh)) <= 0).
+Proof.
+  intros Hl Hx Hz. unfold bprojl. set (N := sqrt (dot xh xh)).
+  assert (HN0 : 0 <= N) by apply sqrt_pos.
+  assert (HNN : N * N = dot xh xh) by (apply sqrt_sqrt, dot_self_nonneg).
+  destruct (Rle_dec N lam) as [H1|H1].
+  - rewrite Rmax_right by assumption. replace (lam / lam) with 1 by (field; lra).
+    assert (E : map (fun a => a / 1) xh = xh).
+    { rewrite <- (map_id xh) at 2. apply map_ext. intros a. field. }
+    rewrite E. split; [nra|]. intros _. rewrite (vsub_self d) by assumption. rewrite (dot_zero_r d) by auto with vlen. lra.
+  - apply Rnot_le_lt in H1. rewrite Rmax_left by lra. set (dl := N / lam).
+    assert (Hdl : 1 < dl) by (unfold dl; apply (Rmult_lt_reg_r lam); [assumption|]; unfold Rdiv; rewrite Rmult_assoc, Rinv_l by lra; lra).
+    set (ph := map (fun a => a / dl) xh).
+    assert (Lp : length ph = d) by (unfold ph; rewrite map_length; assumption).
+    assert (Hpp : dot ph ph = lam * lam) by (unfold ph; rewrite dot_self_map_div, <- HNN; unfold dl; field; lra).
+    split; [lra|]. intros Hzz. unfold ph at 2. rewrite (vsub_map_div d) by (auto; lra). fold ph.
+    rewrite dot_vscal_r, (dot_vsub_l d) by assumption. rewrite Hpp.
+    pose proof (dot_cs d zh ph Hz Lp) as C. rewrite Hpp in C. rewrite sqrt_square in C by lra.
+    assert (sqrt (dot zh zh) <= lam) by (rewrite <- (sqrt_square lam) by lra; apply sqrt_le_1_alt; assumption).
+    assert (0 <= sqrt (dot zh zh)) by apply sqrt_pos.
+    assert (dot zh ph - lam * lam <= 0) by nra. nra.
+Qed.
+
+(* ---------------- the field ---------------- *)
+Definition cdeltal (lam : R) (m : nat) (X : list Rvec) : Rvec := map (fun a => Rmax a lam / lam) (map sqrt (cn m X)).
+Definition feasiblel (lam : R) (m : nat) (M : list Rvec) : Prop := Forall (fun a => a <= lam * lam) (cn m M).
+
+Theorem groupball_vi_lam d lam : 0 < lam -> forall m (wb : Rvec) (X : list Rvec), allpos wb -> length wb = m -> rows_ok d m X ->
+  let P := crows (cdeltal lam m X) X in
+  feasiblel lam m P /\
+  forall Z, rows_ok d m Z -> feasiblel lam m Z -> mdot wb (msub Z P) (msub X P) <= 0.
+Proof.
+  intros Hl. induction m as [|m IHm]; intros wb X Pw Lw RX P.
+  - destruct wb; [|discriminate]. split.
+    + unfold feasiblel. rewrite cn_zero. constructor.
+    + intros Z _ _. rewrite mdot_nil_w. lra.
+  - destruct wb as [|w0 wb]; [discriminate|]. inversion Pw as [|? ? Hw0 Pw']; subst. cbn [length] in Lw.
+    assert (Ed : cdeltal lam (S m) X = Rmax (sqrt (dot (heads X) (heads X))) lam / lam :: cdeltal lam m (tails X)).
+    { unfold cdeltal. rewrite (cn_peel d) by assumption. reflexivity. }
+    assert (Ld : length (cdeltal lam (S m) X) = S m) by (unfold cdeltal; rewrite !map_length; apply (cn_len d); assumption).
+    assert (RP : rows_ok d (S m) P) by (apply crows_rows; assumption).
+    unfold P in *. rewrite Ed in *.
+    destruct (crows_peel d m (Rmax (sqrt (dot (heads X) (heads X))) lam / lam) (cdeltal lam m (tails X)) X RX) as [HP TP].
+    set (P' := crows (Rmax (sqrt (dot (heads X) (heads X))) lam / lam :: cdeltal lam m (tails X)) X) in *.
+    assert (HPb : heads P' = bprojl lam (heads X)) by (rewrite HP; reflexivity).
+    pose proof (rows_tails d m X RX) as RtX.
+    destruct (IHm wb (tails X) Pw' ltac:(lia) RtX) as [F' V']. rewrite <- TP in F', V'.
+    destruct (bprojl_vi d lam (heads X) (heads X) Hl (heads_len d _ X RX) (heads_len d _ X RX)) as [B1 _].
+    split.
+    + unfold feasiblel. rewrite (cn_peel d m P') by assumption. constructor; [rewrite HPb; exact B1|exact F'].
+    + intros Z RZ FZ. unfold feasiblel in FZ. rewrite (cn_peel d m Z) in FZ by assumption.
+      pose proof (Forall_inv FZ) as FZ0. pose proof (Forall_inv_tail FZ) as FZt. cbn beta in FZ0.
+      rewrite (mdot_peel d m) by (apply msub_rows; assumption).
+      destruct (msub_heads d m Z P' RZ RP) as [E1 E2]. destruct (msub_heads d m X P' RX RP) as [E3 E4].
+      rewrite E1, E2, E3, E4, HPb.
+      destruct (bprojl_vi d lam (heads X) (heads Z) Hl (heads_len d _ X RX) (heads_len d _ Z RZ)) as [_ B2].
+      specialize (B2 FZ0). specialize (V' (tails Z) (rows_tails d m Z RZ) FZt). nra.
+Qed.
+
+(* ---------------- proximal_convex_conj_l1_l2(space, lam, g) ---------------- *)
+Definition F_ccl1l2 (m d : nat) (lam : R) (g w z : Rvec) : option R :=
+  if forallb (fun a => Rleb a (lam * lam)) (@pw_normsq R _ m d z) then Some (wdot w z g) else None.
+
+Lemma forallb_le_lam lam (l : Rvec) : forallb (fun a => Rleb a (lam * lam)) l = true <-> Forall (fun a => a <= lam * lam) l.
+Proof.
+  induction l as [|a l IH]; cbn [forallb]; split; intros H; try constructor; try reflexivity.
+  - destruct (Rleb_spec a (lam * lam)); [assumption|discriminate].
+  - apply IH. destruct (Rleb a (lam * lam)); [assumption|discriminate].
+  - inversion H; subst. destruct (Rleb_spec a (lam * lam)); [apply IH; assumption|contradiction].
+Qed.
+Lemma wdot_vadd_rr n (w z x y : Rvec) : length w = n -> length z = n -> length x = n -> length y = n ->
+  wdot w z (vadd x y) = wdot w z x + wdot w z y.
+Proof. intros. rewrite wdot_sym, (wdot_vadd_l n) by assumption. rewrite (wdot_sym w x), (wdot_sym w y). reflexivity. Qed.
+Lemma x_minus_p n : forall s (x g p : Rvec), length x = n -> length g = n -> length p = n ->
+  vsub x p = vadd (vsub (vlin 1 x (- s) g) p) (vscal s g).
+Proof. vind n. unfv; cbn [map vmap2]; f_equal; [numR; ring | apply IHn; lia]. Qed.
+
+Theorem ccl1l2_factory_prox m d lam (g wb x : Rvec) s : 0 < lam -> 0 < s -> (1 <= d)%nat -> allpos wb -> length wb = m ->
+  length g = (d * m)%nat -> length x = (d * m)%nat ->
+  let w := concat (repeat wb d) in
+  is_proxs (d * m) (F_ccl1l2 m d lam g w) (metric w (repeat s (d * m))) x
+           (@prox_cc_l1_l2 R _ _ m d lam (Some g) s x).
+Proof.
+  intros Hl Hs Hd Pw Lw Hg Hx w.
+  assert (Lww : length w = (d * m)%nat).
+  { unfold w. clear -Lw. induction d; cbn [repeat concat]; [reflexivity|]. rewrite app_length, IHd. lia. }
+  set (diff := vlin 1 x (- s) g). assert (Ldf : length diff = (d * m)%nat) by (unfold diff; auto with vlen).
+  destruct (chunks_rows m d diff Ldf) as [RD CD]. set (D := chunks m d diff) in *.
+  assert (Ldl : length (cdeltal lam m D) = m) by (unfold cdeltal; rewrite !map_length; apply (cn_len d); assumption).
+  assert (RP : rows_ok d m (crows (cdeltal lam m D) D)) by (apply crows_rows; assumption).
+  assert (Ep : @prox_cc_l1_l2 R _ _ m d lam (Some g) s x = concat (crows (cdeltal lam m D) D)).
+  { unfold prox_cc_l1_l2, pw_norm, pw_normsq. numS. fold diff. fold D. fold (cn m D). unfold crows. f_equal.
+    apply map_ext_in. intros c _. f_equal. unfold cdeltal. rewrite !map_map. apply map_ext. intros a.
+    rewrite nmax_R. reflexivity. }
+  destruct (groupball_vi_lam d lam Hl m wb D Pw Lw RD) as [FP VP].
+  set (P := crows (cdeltal lam m D) D) in *. set (p := concat P).
+  assert (Lp : length p = (d * m)%nat) by (apply (concat_len d m); assumption).
+  assert (Hval : forall M, rows_ok d m M ->
+            F_ccl1l2 m d lam g w (concat M) = if forallb (fun a => Rleb a (lam * lam)) (cn m M) then Some (wdot w (concat M) g) else None).
+  { intros M RM. unfold F_ccl1l2, pw_normsq. rewrite (chunks_concat m d M RM). reflexivity. }
+  rewrite Ep. fold p. split; [assumption|]. exists (wdot w p g). split.
+  - unfold p. rewrite Hval by assumption. apply forallb_le_lam in FP. rewrite FP. reflexivity.
+  - intros z Hz. destruct (chunks_rows m d z Hz) as [RZ CZ]. set (Z := chunks m d z) in *.
+    rewrite <- CZ at 2. rewrite Hval by assumption.
+    destruct (forallb (fun a => Rleb a (lam * lam)) (cn m Z)) eqn:EZ; cbn [ele]; [|exact I].
+    apply forallb_le_lam in EZ. rewrite CZ.
+    rewrite (metric_scalar_dot (d * m)) by (auto with vlen; lra).
+    rewrite (x_minus_p (d * m) s x g p) by assumption. fold diff.
+    rewrite (wdot_vadd_rr (d * m)), (wdot_vscal_r' (d * m)) by auto with vlen.
+    rewrite (wdot_vsub_l (d * m) w z p g) by assumption.
+    (* the projection part *)
+    assert (Hproj : wdot w (vsub z p) (vsub diff p) <= 0).
+    { rewrite <- CZ, <- CD. unfold p. rewrite !(vsub_concat d m) by assumption. unfold w.
+      rewrite (wdot_concat d m wb Lw) by (apply msub_rows; assumption). apply VP; assumption. }
+    assert (Hi : 0 < / s) by (apply Rinv_0_lt_compat; assumption).
+    unfold Rdiv. replace ((wdot w (vsub z p) (vsub diff p) + s * (wdot w z g - wdot w p g)) * / s)
+      with (wdot w (vsub z p) (vsub diff p) * / s + (wdot w z g - wdot w p g)) by (field; lra).
+    nra.
+Qed.
+
